@@ -73,6 +73,20 @@ PROPS = {
         phases=[P(kind="fuzz", bin="c05_unicast", runs_quick=14000, runs_thorough=3000000, workers_quick=12, workers_thorough=16, max_len=1024, rss=4000, timeout=120, detect_leaks=0)],
         floor_quick=600, floor_thorough=50000,
     ),
+    "C06": P(
+        title="security policy decisions equal the documented rule semantics",
+        level="exploration",
+        technique="model-based testing over generated configurations: libFuzzer-generated policy rule lists (all contexts, all documented attributes) x probe messages x registry states x two uids on an in-process bus, against an independent evaluator of the documented last-match-wins semantics (no pruning)",
+        level_text=("Exploration: every case draws a policy - allow/deny rules over type, interface, member, path, error, destination, destination prefix, sender, broadcast, requested-reply, "
+                    "eavesdrop, fd-count and own/own_prefix, in the default, per-group, per-user and mandatory contexts, with values from tiny pools so that several rules match the same probe - "
+                    "and a cast of three clients under two uids (a sender, an owner of two names, a queued-and-eavesdropping third). 4-20 probes per case (all four message types, optional fields "
+                    "present/absent, five kinds of destination or broadcast, replies to real calls or unsolicited) and RequestName probes are compared with the model: delivered exactly where send and "
+                    "receive rules both allow, AccessDenied for a denied method call, no ownership change for a denied RequestName."),
+        level_note="A fixed scaffold at the end of the mandatory context keeps the harness' own driver calls and the bus' replies/signals permitted; at_console, SELinux/AppArmor, log= are out of scope; plain send_destination/receive_sender against a queued (non-primary) owner and requested-reply state as seen by eavesdroppers are [U]; fd-count attributes are generated but all probes carry 0 fds (C15 covers fds). Trusts policymodel.cc/busmodel.cc.",
+        rule=("case = (policy, cast, probes) decoded from fuzzer input. Non-trivial = some probe for which at least one allow and one deny rule match (last-match-wins is decisive); distinct = FNV-1a of policy text + log with unique names renamed."),
+        phases=[P(kind="fuzz", bin="c06_policy", runs_quick=6000, runs_thorough=1500000, workers_quick=14, workers_thorough=16, max_len=1024, rss=4000, timeout=120, detect_leaks=0)],
+        floor_quick=600, floor_thorough=50000,
+    ),
     "C07": P(
         title="broadcasts reach exactly the matching connections",
         level="exploration",
